@@ -17,6 +17,7 @@ DECIDED += '; R11 the old LocalSet is destroyed inside an entered runtime (destr
 DECIDED += '; R3 also: since_epoch_at_step_start = since_epoch + start_offset + elapsed; R11 also: the runtime entered for the destruction is the old one'
 DECIDED += '; R1 also: Sim::elapsed is advanced after the last host tick of the step'
 DECIDED += "; R12 every FsContext pairs a filesystem with its own clock; the software factory runs inside the host's runtime on first start too (shared C04-R5)"
+DECIDED += '; R13 HostTimer::now replaces the stored step-start instant'
 ASSUMPTIONS = ["tokio start_paused + sleep(tick) advances the runtime clock by exactly tick"]
 
 STEP = "turmoil::sim::Sim::step"
